@@ -136,8 +136,9 @@ func buildAuction(e *env.Env, prefix string, sp aSpec) *aState {
 			}
 			price := posDec(bp + "price")
 			nd.Assume(price.GTE(minBid))
+			// flags are written by the matching at an end time only: before the first one every flag is still false
 			flag := false
-			if !sp.flagsFalse {
+			if !sp.flagsFalse && (sp.nEnd >= 2 || sp.status != types.AuctionStatusStarted) {
 				flag = nd.Bool(bp + "matched")
 			}
 			b = types.Bid{AuctionId: sp.id, Id: uint64(i + 1), Bidder: ownerStr, Type: typ, Price: price,
